@@ -35,7 +35,22 @@ func (s *IndexStorage) SetIndex(idx *index.Index) (err error) {
 // Index honors the storer.IndexStorer interface.
 func (s *IndexStorage) Index() (*index.Index, error) {
 	if !s.set {
-		return s.IndexStorer.Index()
+		idx, err := s.IndexStorer.Index()
+		if err != nil {
+			return nil, err
+		}
+		// Callers modify the index they are given and hand it back through
+		// SetIndex. A base that returns its own object (memory storage) must
+		// not see those modifications before Commit.
+		cp := *idx
+		if idx.Entries != nil {
+			cp.Entries = make([]*index.Entry, len(idx.Entries))
+			for i, e := range idx.Entries {
+				c := *e
+				cp.Entries[i] = &c
+			}
+		}
+		return &cp, nil
 	}
 
 	return s.temporal.Index()
